@@ -19,6 +19,10 @@ var c01FileCases = []faCase{
 		patch: "@@\nvar x expression\n@@\n-v := foo(x)\n+v := bar(x, x)\n",
 		minus: "package p\n\nfunc f() {\n\t⟦v := foo(«x:1»)⟧\n\tif v > 0 {\n\t\t⟦v := foo(«x:2»)⟧\n\t\tuse(v)\n\t}\n\tfor {\n\t\tfunc() {\n\t\t\t⟦v := foo(«x:g(i)»)⟧\n\t\t\tuse(v)\n\t\t}()\n\t}\n\tuse(v)\n}\n",
 		plus:  "package p\n\nfunc f() {\n\t⟦v := bar(«x», «x»)⟧\n\tif v > 0 {\n\t\t⟦v := bar(«x», «x»)⟧\n\t\tuse(v)\n\t}\n\tfor {\n\t\tfunc() {\n\t\t\t⟦v := bar(«x», «x»)⟧\n\t\t\tuse(v)\n\t\t}()\n\t}\n\tuse(v)\n}\n"},
+	{name: "stmt-overlapping-prefix",
+		patch: "@@\nvar x, y identifier\n@@\n-x.Lock()\n-y.Lock()\n-transfer(x, y)\n+transferLocked(x, y)\n",
+		minus: "package p\n\nfunc f() {\n\ta.Lock()\n\t⟦«x:b».Lock()\n\t«y:c».Lock()\n\ttransfer(«x:b», «y:c»)⟧\n\tdone()\n}\n\nfunc g() {\n\tfor {\n\t\tp.Lock()\n\t\tq.Lock()\n\t\t⟦«x:r».Lock()\n\t\t«y:s».Lock()\n\t\ttransfer(«x:r», «y:s»)⟧\n\t}\n}\n",
+		plus:  "package p\n\nfunc f() {\n\ta.Lock()\n\t⟦transferLocked(«x», «y»)⟧\n\tdone()\n}\n\nfunc g() {\n\tfor {\n\t\tp.Lock()\n\t\tq.Lock()\n\t\t⟦transferLocked(«x», «y»)⟧\n\t}\n}\n"},
 	{name: "stmt-in-case-and-select",
 		patch: "@@\nvar x identifier\n@@\n-x.Lock()\n+lock(x)\n",
 		minus: "package p\n\nfunc f(c chan int) {\n\tswitch {\n\tcase true:\n\t\t⟦«x:mu».Lock()⟧\n\t}\n\tselect {\n\tcase <-c:\n\t\tpre()\n\t\t⟦«x:rw».Lock()⟧\n\t}\n}\n",
